@@ -229,7 +229,7 @@ def simulate(
     step_px : scan step in object pixels.  With ``fractional=True`` the step becomes
         ``(step_px - 0.3, step_px - 0.4)`` (rows, cols) so that positions are non-integer
         (and different along the two axes).
-    sampling : real-space pixel size in Angstrom (isotropic); the reciprocal sampling is
+    sampling : real-space pixel size in Angstrom (a number, or (row, col) for anisotropic pixels); the reciprocal sampling is
         ``1 / (roi * sampling)`` per axis.
     semiangle_cutoff : mrad; default puts the aperture edge at 0.5 * q_max.
     defocus : Angstrom (C10 = -defocus).
@@ -248,7 +248,7 @@ def simulate(
     num_slices = int(num_slices)
     rng = np.random.default_rng(seed)
 
-    sampling_rc = (float(sampling), float(sampling))
+    sampling_rc = (float(sampling[0]), float(sampling[1])) if isinstance(sampling, (tuple, list)) else (float(sampling), float(sampling))
     if fractional:
         step_rc = (float(step_px) - 0.3, float(step_px) - 0.4)
     else:
